@@ -11,45 +11,45 @@ CLAIMS = {
  "C02": ("Theorem partialEq_correct: for all type definitions, ignore/method assignments, leaf behaviours and value pairs the generated "
          "eq body (model with named binders and patterns) evaluates and equals the reference semantics; corollaries: ignored fields are "
          "irrelevant, refl/symm/trans under the leaf laws. Tie: real macro + rustc on generated definitions, ==/!= compared three ways "
-         "(impl/model/spec).",
+         "(impl/model/spec). End to end (Props/E2E.lean): partialEq_end_to_end / partialEq_handler_end_to_end - whenever `expand` (the PartialEq handler) accepts a struct or enum given as syn's records, the per-field configuration it read from the attributes (cmpScan_spec: field by field the result of the builder on that field's own attribute list) is what the item carries and the eq body generated for it equals the reference semantics for all values; eq_ignores_ignored_fields states the ignore clause on attributes. Tie B6: every observation is answered a second time from syn's records of the real tokens through attribute layer -> Bridge -> body.",
          COMMON_NOTE + "`!=` is the trait default `!eq`; the reading of `==` as `!ne` assumes lawful leaf `ne`.",
          "Lean 4 theorem by induction over the field list + differential correspondence of the model against the real macro"),
  "C03": ("Theorems cmp_correct (cmp and partial_cmp bodies equal the lexicographic reference in ascending rank, None exactly when an "
          "incomparable field comes first), visit_order_is_rank_order (BTreeMap model = merge sort by rank, default rank isize::MIN+index), "
          "accepted_ranks_distinct, both_educed_partial_cmp_is_some_cmp, lexCmp_refl/antisymm/trans under leaf laws. Tie: real macro + "
-         "rustc, cmp/partial_cmp on generated definitions with all rank spellings.",
+         "rustc, cmp/partial_cmp on generated definitions with all rank spellings. End to end (Props/E2E.lean): ord_handler_end_to_end / partialOrd_handler_end_to_end / ord_end_to_end - acceptance by the Ord or PartialOrd handler yields the scan (ordScan_spec: ignore/method/rank per field from its own attributes, rank map without duplicates), the body exists (rankLoop_agrees) and equals the lexicographic reference; with both educed partial_cmp = Some(cmp). Tie B6 as for C02.",
          COMMON_NOTE + "rank values are modelled as unbounded Int (the isize range check of the parser belongs to the attribute layer, C13/C14).",
          "Lean 4 theorem (sorted-insertion = merge sort; induction over the visiting order) + differential correspondence"),
  "C04": ("Theorems cross_variant_by_discriminant / same_variant_by_fields (corollaries of cmp_correct) and discValues_explicit/implicit: "
          "different variants compare as their declared discriminants for every payload, same variant by fields alone; the model of the "
          "repaired code has no layout parameter, so independence from layout and neighbouring bytes is by construction. Tie: real macro + "
          "rustc over niche/ZST payloads x repr attributes x explicit discriminants, every comparison repeated inside #[repr(C)] wrappers "
-         "with different trailing bytes.",
+         "with different trailing bytes. End to end (Props/E2E.lean): ord_cross_variant_end_to_end - for an enum accepted by the Ord handler, values of different variants compare as the declared discriminants read from the variants' own `= expr` tokens (any valuation of the expressions), whatever the payloads. Tie B6.",
          COMMON_NOTE + "the pinned tree violated this property (pointer-cast read of the tag); repaired by fix commit 45f1958, see known_findings.json.",
          "Lean 4 theorem + differential correspondence (value-level, incl. neighbour-byte repetition)"),
  "C05": ("Theorems hash_correct (the hash body feeds, for enums, the variant index and then every non-ignored field in declaration order through "
          "its method or own Hash — for every leaf behaviour, i.e. every hasher), agree_feeds_equal, different_variant_feeds_differ, "
          "feedFields_differ (injective under the explicit prefix-freeness hypothesis on hashed positions), eq_implies_same_feed_fields. "
-         "Tie: real macro + rustc with a recording Hasher that logs every write_* call.",
+         "Tie: real macro + rustc with a recording Hasher that logs every write_* call. End to end (Props/E2E.lean): hash_end_to_end / hash_handler_end_to_end - acceptance yields the scan and the hash body generated for it feeds the reference sequence. Tie B6.",
          COMMON_NOTE + "'whose own hashing distinguishes them' is formalised as prefix-freeness of the hashed positions' feed functions (explicit hypothesis, satisfiable: fixed-width writes).",
          "Lean 4 theorem + differential correspondence through a recording hasher"),
  "C07": ("Theorems clone_correct, cloneFrom_correct (same-variant path rewrites every field from the source's field, other path assigns a fresh "
          "clone), cloneFrom_is_clone_of_source (for every prior a, under the Clone::clone_from contract of the leaves), copy_clone_is_bitwise. "
          "Tie: real macro + rustc with an instrumented leaf type whose clone / clone_from are observably different and counted; all ordered "
-         "(a, b) pairs incl. cross-variant.",
+         "(a, b) pairs incl. cross-variant. End to end (Props/E2E.lean): clone_end_to_end / clone_handler_end_to_end, useCopy_is_bitwise (the attribute layer's `useCopy`, which selects the bound trait, is the behavioural layer's `bitwise`). Tie B6.",
          COMMON_NOTE + "destination operands of one clone_from body are disjoint &mut borrows (each reads the original field); Copy-ness itself (that the Copy impl is emitted and accepted) is checked under C01/C11.",
          "Lean 4 theorem + differential correspondence with instrumented leaves"),
  "C06": ("Theorems debug_correct (for every accepted configuration and value the fmt body makes exactly the builder calls of the effective "
          "shape: builder kind, effective name incl. Enum::Variant, ordered entries with effective keys `_i`/rename, formatter and value), "
          "debug_output (both formatter modes), shownFields_positions (ignored absent, declaration order), derive_equiv_enum (parameter-free = "
          "#[derive(Debug)]). Tie: real macro + rustc, {:?} and {:#?} strings over name/rename/named_field/ignore/method assignments; "
-         "parameter-free definitions also against a #[derive(Debug)] twin.",
+         "parameter-free definitions also against a #[derive(Debug)] twin. End to end (Props/E2E.lean): debug_struct_end_to_end / debug_enum_end_to_end / dbgScan_of_handler - acceptance by the Debug handler yields the type-, variant- and field-level configuration (each read from its own attribute list, the field `name` switch dictated by the `named_field` in force), the fmt body exists and its output is the builders' rendering of the effective shape in both modes. Tie B6.",
          COMMON_NOTE + "core::fmt's DebugStruct/DebugTuple/DebugMap/PadAdapter are modelled (Sem/FmtBuilders.lean) and validated by the same runs, not proved; derive-equivalence is proved for enums and observed for structs.",
          "Lean 4 theorem on builder calls + differential correspondence on output strings"),
  "C09": ("Theorems deref_correct (accepted => for every value `&*x`/`&mut *x` designates the sole field or the marked one; includes the "
          "wildcard-counted tuple pattern lemma matchTuple_replicate), pick_eq_designated / struct_refused_iff / variant_refused_iff (refused "
          "exactly when the designation is missing, duplicated or the variant is a unit), write_through_only_designated. Tie: real macro + rustc, "
-         "pointer identity of `&*x` / `&mut *x` against every field's storage (or referent), fields changed after a write.",
+         "pointer identity of `&*x` / `&mut *x` against every field's storage (or referent), fields changed after a write. End to end (Props/E2E.lean): deref_struct_end_to_end / deref_enum_end_to_end with derefLoop_pickLoop / derefPick_pick (the attribute layer's marker loop and the behavioural layer's are the same loop): the field index the item reports is the designated field of the reference semantics on the markers read from the fields' own attributes, and `&*x` designates it for every value. Tie B6.",
          COMMON_NOTE + "the model returns the designated field index; that a reference-typed field yields its referent is Rust's deref coercion (observed, not modelled); Target type agreement across variants is rustc's check.",
          "Lean 4 theorem + differential correspondence by pointer identity"),
  "C10": ("Theorems into_correct (for every generated impl and value, x.into() is the field designated for T — sole field, else marked, else "
